@@ -134,7 +134,11 @@ pub fn check_jit(c: &JitCase) -> CheckResult {
                     g.jitter().unwrap().set_rounds(r);
                 }
             }
+            JOp::Clone => {}
         });
+        if matches!(op, JOp::Clone) {
+            g = g.clone_box();
+        }
         match r {
             Caught::Ok(()) => {}
             Caught::Panic(rec) => return Err(Fail::new(panic_signature(&rec), format!("JitterRng op #{} {:?} panicked: {}", k, op, rec))),
@@ -228,6 +232,18 @@ pub fn def(ctx: &Ctx) -> PropDef {
             }
         },
     ));
+    if ctx.tier == crate::engine::Tier::Thorough {
+        subs.push(crate::props::fuzzsub::FuzzSub::boxed("fz_hist", "C14", 400000, false));
+        subs.push(crate::props::fuzzsub::FuzzSub::boxed("fz_hist", "C14", 400000, true));
+    }
+    if ctx.tier == crate::engine::Tier::Thorough {
+        subs.push(crate::props::fuzzsub::FuzzSub::boxed("fz_jitter", "C14", 150000, false));
+        subs.push(crate::props::fuzzsub::FuzzSub::boxed("fz_jitter", "C14", 150000, true));
+    }
+    if ctx.tier == crate::engine::Tier::Thorough {
+        subs.push(crate::props::fuzzsub::FuzzSub::boxed("fz_timer", "C14", 100000, false));
+        subs.push(crate::props::fuzzsub::FuzzSub::boxed("fz_timer", "C14", 100000, true));
+    }
     PropDef {
         id: "C14",
         rule: "overflow-checked build (overflow-checks and debug-assertions on); every case under catch_unwind with a recording panic hook. Deterministic types: constructor (from_seed incl. zero seeds, seed_from_u64 of any u64, from_rng / try_from_rng over byte-scripted sources incl. zero blocks and failures at any byte) x histories up to 30 (thorough 200) ops of next_u32/next_u64/fill_bytes(n incl. 0, tails, block edges, rarely 1 MiB)/jump/long_jump/clone/serde round trip/Debug/==. JitterRng: hostile timer programs (deltas within +-3 of +-2^31 and 2^32, 2^32 multiples, backwards, arbitrary u64, zero, wrap-around starts), rounds 1..=255, histories incl. timer_stats, set_rounds (0 excluded by construction: the documented panic), test_timer followed by set_rounds(r), clones; plus test_timer over the constructive C13 timers with hostile deltas injected. Any panic located outside the harness sources is a violation keyed on (message, file). Non-trivial = case contains a hostile element (zero/odd length, zero seed, source-based constructor, hostile delta); distinct by hash of the case.".into(),
